@@ -84,7 +84,7 @@ fn hist_cfg_for(seed: u64, m: &HashMap<String, String>) -> hist::HistCfg {
     if let Some(f) = m.get("file").and_then(|v| v.parse().ok()) {
         opts.file = f;
     }
-    hist::HistCfg {
+    let mut cfg = hist::HistCfg {
         seed,
         nkeys: arg(m, "nkeys", rng.gen_range(3..=12)),
         nops: arg(m, "nops", 60),
@@ -105,7 +105,13 @@ fn hist_cfg_for(seed: u64, m: &HashMap<String, String>) -> hist::HistCfg {
         jitter: arg(m, "jitter", 0),
         jitter_point: m.get("jitter-point").cloned().unwrap_or_default(),
         jitter_us: arg(m, "jitter-us", 0),
+        cache_cap: arg(m, "cache-cap", 0),
+    };
+    if m.contains_key("small-caches") {
+        // (drawn last: the other settings of a seed stay what they are without the flag)
+        cfg.cache_cap = *[2usize, 2, 3, 4, 8].get(rng.gen_range(0..5)).unwrap();
     }
+    cfg
 }
 
 fn cmd_hist(m: &HashMap<String, String>) -> i32 {
